@@ -148,7 +148,7 @@ func (c *c07Env) apply(a c07Action, seqName string) {
 		if m.Outage {
 			return
 		}
-		if r := m.Primary[a.User]; r != nil && r.Bad == "" {
+		if r := m.Primary[a.User]; r != nil && r.Bad == "" && r.Owner == a.User {
 			var hash string
 			ok, hash, err := c.env.GetSigned(a.User, 1)
 			if err == nil && ok {
@@ -196,12 +196,9 @@ func (c *c07Env) apply(a c07Action, seqName string) {
 				c.side.Exec("update expiring_signed_user_data set jws_data=?, expiration_epoch=? where username='bob' and type=1", ja, ea)
 				ra, rb := m.Primary["alice"], m.Primary["bob"]
 				if ra != nil && rb != nil {
+					// the records change places; whether one is honoured follows from
+					// its owner (inside the signed record) versus the row's user
 					*ra, *rb = *rb, *ra
-					for _, r := range []*c07Row{ra, rb} {
-						if r.Bad == "" {
-							r.Bad = "record of another user"
-						}
-					}
 				}
 			}
 		case "flip-payload":
@@ -276,7 +273,9 @@ func (c *c07Env) apply(a c07Action, seqName string) {
 			state := "none"
 			if r := st[u]; r != nil {
 				state = "valid"
-				if r.Bad != "" {
+				if r.Owner != u {
+					state = "record of another user"
+				} else if r.Bad != "" {
 					state = r.Bad
 				} else if r.ColExp {
 					state = "expired"
@@ -298,7 +297,9 @@ func (c *c07Env) apply(a c07Action, seqName string) {
 			basis := "directory-answers"
 			if !m.DirUp {
 				basis = "cache-decides"
-				if row := (map[bool]map[string]*c07Row{false: m.Primary, true: m.Cache})[m.Outage][u]; row != nil && row.Bad != "" {
+				if row := (map[bool]map[string]*c07Row{false: m.Primary, true: m.Cache})[m.Outage][u]; row != nil && row.Owner != u {
+					basis += ":record-of-another-user"
+				} else if row != nil && row.Bad != "" {
 					basis += ":" + strings.ReplaceAll(row.Bad, " ", "-")
 				}
 			}
@@ -317,7 +318,7 @@ func (c *c07Env) apply(a c07Action, seqName string) {
 				} else {
 					c.rep.Count("refresh_checked", 1)
 				}
-			} else if row := m.Primary[u]; row != nil && row.Bad == "" && row.PW == pw {
+			} else if row := m.Primary[u]; row != nil && row.Bad == "" && row.Owner == u && row.PW == pw {
 				delete(m.Primary, u)
 				if _, _, ok := c.rowJWS(c.side, u); ok {
 					c.rep.Violate("C07/rejected-cached-password-not-evicted", "the directory rejected the cached password but the cached hash stayed in the primary store", cs)
